@@ -187,6 +187,7 @@ func checkC08(r *core.Run) {
 	r.Rule("CAP-mint: bank.MintCoins only from node.BeginBlock; bank.BurnCoins from no entry point")
 	r.Rule("G-mint: MintCoins <= !TotalPledged.IsZero AND !BlockReward.IsZero AND !rewardCoin.IsZero; TotalReward.Add <= mint err == nil, with the minted coin value; baseline replacement <= reward.LT(rewardCoin.Amount)")
 	r.Rule("T-settle: store to Pledge.TotalStorage preceded on every path by the settlement store to Reward.Amount (or the TotalStorage > 0 false edge) and followed, before SetPledge, by the RewardDebt.Amount store")
+	r.Rule("T-settle-rebase: in ShardPledge, ShardRelease, AddVstorage and RemoveVstorage every path from the settlement (Reward += Acc×TotalStorage − RewardDebt) to SetPledge re-bases RewardDebt := Acc×TotalStorage (a pledge persisted settled-but-not-re-based is paid the same pending reward again)")
 	r.Rule("T-couple(pool): Pool.TotalStorage moves with Pledge.TotalStorage by the same term in AddVstorage/RemoveVstorage (sum of provider shares = pool total, so rate x share sums to what was minted)")
 	for _, h := range []string{"node/keeper.msgServer.AddVstorage", "node/keeper.msgServer.RemoveVstorage"} {
 		coupleSame(r, "T-couple", h, "node/types.Pledge.TotalStorage", "node/types.Pool.TotalStorage", false)
@@ -405,6 +406,9 @@ func checkC08(r *core.Run) {
 	for _, fnName := range []string{"node/keeper.msgServer.AddVstorage", "node/keeper.msgServer.RemoveVstorage"} {
 		checkSettle(r, fnName)
 	}
+	for _, fnName := range []string{"node/keeper.Keeper.ShardPledge", "node/keeper.Keeper.ShardRelease", "node/keeper.msgServer.AddVstorage", "node/keeper.msgServer.RemoveVstorage"} {
+		checkSettleRebase(r, fnName)
+	}
 	// T-claim
 	if fn := r.Func("T-claim", "node/keeper.msgServer.ClaimReward"); fn != nil {
 		// typestate walk (through helpers outside the vocabulary):
@@ -538,6 +542,67 @@ func ruleForcePushOnce(r *core.Run) {
 		}
 	}
 	r.Floor("history_shrink_sites", n, 1)
+}
+
+// checkSettleRebase (T-settle-rebase): wherever the pending reward is added to Pledge.Reward (settle: Reward +=
+// Acc×TotalStorage − RewardDebt), the snapshot RewardDebt must be re-based to Acc×TotalStorage before the pledge is
+// persisted — on every path, early returns through new helpers included. A pledge persisted settled-but-not-re-based
+// is credited the same pending amount again by the next settlement (claimed + claimable exceeds what was minted).
+func checkSettleRebase(r *core.Run, fnName string) {
+	const id = "T-settle-rebase"
+	fn := r.Func(id, fnName)
+	if fn == nil {
+		return
+	}
+	events := func(f *ssa.Function, ins ssa.Instruction, T func(ssa.Value) string) []string {
+		switch x := ins.(type) {
+		case *ssa.Store:
+			at := normT(T(x.Addr))
+			vt := normT(T(x.Val))
+			switch {
+			case strings.HasSuffix(at, ".Reward.Amount"):
+				if strings.Contains(vt, ".AccRewardPerByte.Amount") && strings.Contains(vt, ".RewardDebt.Amount") {
+					return []string{"settle"}
+				}
+			case strings.HasSuffix(at, ".RewardDebt.Amount"):
+				if strings.Contains(vt, ".AccRewardPerByte.Amount") && strings.Contains(vt, ".TotalStorage") && !strings.Contains(vt, ".RewardDebt.Amount") {
+					return []string{"rebase"}
+				}
+			}
+		case ssa.CallInstruction:
+			if n, _ := r.Resolver(f).CalleeName(x.Common()); n == "node/keeper.Keeper.SetPledge" {
+				return []string{"persist"}
+			}
+		}
+		return nil
+	}
+	t := &tsRule{r: r, events: events, step: func(st uint8, ev string) (uint8, string) {
+		switch ev {
+		case "settle":
+			return 1, ""
+		case "rebase":
+			return 0, ""
+		case "persist":
+			if st == 1 {
+				return st, "persisted settled but not re-based"
+			}
+		}
+		return st, ""
+	}}
+	res := t.run(fn, 0)
+	key := core.Key(id, fnName, "settled reward => debt re-based before the pledge is persisted")
+	switch {
+	case res.counts["settle"] == 0 || res.counts["persist"] == 0:
+		r.Undecide(id, key, r.P.FuncPos(fn), fmt.Sprintf("vacuous: expected a settlement and a SetPledge under %s (found %d, %d)", fnName, res.counts["settle"], res.counts["persist"]))
+	case res.bad == "":
+		r.Discharge(id, key, r.P.FuncPos(fn), "after Reward += pending every path to SetPledge passes RewardDebt := Acc×TotalStorage")
+	default:
+		pos := r.P.FuncPos(fn)
+		if res.badAt != nil && res.badAt.Pos().IsValid() {
+			pos = r.P.Pos(res.badAt.Pos())
+		}
+		r.Violate(id, key, pos, fnName+" persists a pledge whose pending reward was added to Reward while RewardDebt still holds the old snapshot: the next settlement (claim, vstorage change, shard pledge/release) credits the same amount again — claimed plus claimable exceeds what was minted, and another provider's claim fails for lack of funds")
+	}
 }
 
 // checkSettle: ordering around a change of Pledge.TotalStorage.
